@@ -1,10 +1,16 @@
 package main
-import ("fmt";"unicode";"verif/shadow")
-func main(){ 
- for cp:=rune(0);cp<=0x10ffff;cp++{ 
-  cf:=unicode.Is(unicode.Cf,cp)
-  w:=shadow.Width(cp)
-  if cf && w>0 { fmt.Printf("Cf width%d %U\n",w,cp) }
+import ("fmt";"os";"time";"runtime/pprof";"github.com/gdamore/tcell/v2";"verif/faketty";"verif/props")
+func main(){
+ ti:=props.Pristine("xterm-256color"); ti.PadChar=""
+ for iter:=0; iter<200; iter++ {
+ ft:=faketty.New(10,4)
+ flip:=false
+ ft.OnDrain=func(t *faketty.Tty){ flip=!flip; if flip {t.ResizeLocked(11,5)} else {t.ResizeLocked(10,4)} }
+ s,_:=tcell.NewTerminfoScreenFromTtyTerminfo(ft,ti)
+ ft.BeginApp(); s.Init()
+ done:=make(chan struct{})
+ go func(){ s.Show(); s.Suspend(); s.Resume(); s.Show(); s.Suspend(); s.Resume(); ft.BeginFini(); s.Fini(); close(done)}()
+ select{ case <-done: case <-time.After(5*time.Second): fmt.Println("HANG at iter",iter); pprof.Lookup("goroutine").WriteTo(os.Stdout,1); os.Exit(1)}
  }
- for _,cp:=range []rune{0x200b,0x200c,0x200d,0x200e,0x200f,0x2028,0x2029,0x202a,0x202e,0x2060,0x2061,0x2062,0x2063,0x2064,0x2065,0x2066,0x2067,0x2068,0x2069,0x206a,0x206f,0xfeff,0xad,0x61c,0x180e,0xfff9,0xfffb}{ fmt.Printf("%U w=%d cf=%v\n",cp,shadow.Width(cp),unicode.Is(unicode.Cf,cp)) }
+ fmt.Println("no hang")
 }
